@@ -322,79 +322,85 @@ func TestC07Programs(t *testing.T) {
 // operators and expressions with hundreds of terms side by side (calls,
 // parenthesised groups, in-lists, index expressions). The grammar has no size
 // limit; the tree must be the same as for small programs, only longer.
+// genLargeProgram draws a program that is large but flat: hundreds of
+// operators, terms, statements or list elements side by side.
+func genLargeProgram(rt *rapid.T, g *gen.G) (prog *gen.Program, class string, n int) {
+	n = rapid.IntRange(50, 700).Draw(rt, "size")
+	prog = &gen.Program{}
+	switch rapid.IntRange(0, 3).Draw(rt, "largekind") {
+	case 0:
+		// a pipeline of n stages, each with a bracket somewhere
+		q := &gen.Tabular{Table: gen.Ident{Name: "T"}}
+		for i := 0; i < n; i++ {
+			switch i % 4 {
+			case 0:
+				q.Ops = append(q.Ops, &gen.Where{Pred: &gen.Binary{Op: ">", X: gen.ID(fmt.Sprintf("c%d", i)), Y: &gen.Paren{X: &gen.Num{Text: fmt.Sprint(i)}}}})
+			case 1:
+				id := gen.Ident{Name: fmt.Sprintf("e%d", i)}
+				q.Ops = append(q.Ops, &gen.Extend{Cols: []*gen.Col{{Name: &id, X: &gen.Call{Func: "f", Args: []gen.Expr{gen.ID("a"), &gen.Num{Text: fmt.Sprint(i)}}}}}})
+			case 2:
+				q.Ops = append(q.Ops, &gen.Where{Pred: &gen.In{X: gen.ID("k"), Vals: []gen.Expr{&gen.Num{Text: "1"}, &gen.Num{Text: fmt.Sprint(i)}}}})
+			default:
+				q.Ops = append(q.Ops, &gen.Sort{Terms: []*gen.Term{{X: &gen.Index{X: gen.ID("m"), I: &gen.Str{Value: fmt.Sprintf("k%d", i)}}, Dir: "asc"}}})
+			}
+		}
+		prog.Stmts = []gen.Stmt{q}
+		class = "long-pipeline"
+	case 1:
+		// one expression with n terms side by side
+		op := rapid.SampledFrom([]string{"or", "and", "+"}).Draw(rt, "chainop")
+		var x gen.Expr
+		for i := 0; i < n; i++ {
+			var term gen.Expr
+			switch i % 3 {
+			case 0:
+				term = &gen.Call{Func: "startswith", Args: []gen.Expr{gen.ID("name"), &gen.Str{Value: fmt.Sprintf("p%d", i)}}}
+			case 1:
+				term = &gen.Paren{X: &gen.Binary{Op: "==", X: gen.ID("x"), Y: &gen.Num{Text: fmt.Sprint(i)}}}
+			default:
+				term = &gen.In{X: gen.ID("y"), Vals: []gen.Expr{&gen.Num{Text: fmt.Sprint(i)}}}
+				if op == "+" || op == "and" {
+					term = &gen.Paren{X: term}
+				}
+			}
+			if x == nil {
+				x = term
+			} else {
+				x = &gen.Binary{Op: op, X: x, Y: term}
+			}
+		}
+		prog.Stmts = []gen.Stmt{&gen.Tabular{Table: gen.Ident{Name: "T"}, Ops: []gen.Op{&gen.Where{Pred: x}}}}
+		class = "long-expression"
+	case 2:
+		// many statements: lets, then the query
+		for i := 0; i < n; i++ {
+			prog.Stmts = append(prog.Stmts, &gen.Let{Name: gen.Ident{Name: fmt.Sprintf("v%d", i)}, X: &gen.Paren{X: &gen.Num{Text: fmt.Sprint(i)}}})
+		}
+		prog.Stmts = append(prog.Stmts, g.Tabular(0))
+		class = "many-statements"
+	default:
+		// long lists: project / call arguments / in-list
+		p := &gen.Project{}
+		c := &gen.Call{Func: "f"}
+		in := &gen.In{X: gen.ID("k")}
+		for i := 0; i < n; i++ {
+			id := gen.Ident{Name: fmt.Sprintf("p%d", i)}
+			p.Cols = append(p.Cols, &gen.Col{Name: &id, X: &gen.Paren{X: gen.ID("a")}})
+			c.Args = append(c.Args, &gen.Index{X: gen.ID("m"), I: &gen.Num{Text: fmt.Sprint(i)}})
+			in.Vals = append(in.Vals, &gen.Paren{X: &gen.Num{Text: fmt.Sprint(i)}})
+		}
+		prog.Stmts = []gen.Stmt{&gen.Tabular{Table: gen.Ident{Name: "T"}, Ops: []gen.Op{p, &gen.Where{Pred: &gen.Binary{Op: "and", X: c, Y: in}}}}}
+		class = "long-lists"
+	}
+	return prog, class, n
+}
+
 func TestC07Large(t *testing.T) {
 	st := harn.NewStats(env, "large")
 	defer st.Flush()
 	rapid.Check(t, func(rt *rapid.T) {
-		g := gen.NewG(rt, gen.Cfg{MaxDepth: 1, MaxOps: 2, JoinDepth: 0})
-		n := rapid.IntRange(50, 700).Draw(rt, "size")
-		prog := &gen.Program{}
-		class := ""
-		switch rapid.IntRange(0, 3).Draw(rt, "largekind") {
-		case 0:
-			// a pipeline of n stages, each with a bracket somewhere
-			q := &gen.Tabular{Table: gen.Ident{Name: "T"}}
-			for i := 0; i < n; i++ {
-				switch i % 4 {
-				case 0:
-					q.Ops = append(q.Ops, &gen.Where{Pred: &gen.Binary{Op: ">", X: gen.ID(fmt.Sprintf("c%d", i)), Y: &gen.Paren{X: &gen.Num{Text: fmt.Sprint(i)}}}})
-				case 1:
-					id := gen.Ident{Name: fmt.Sprintf("e%d", i)}
-					q.Ops = append(q.Ops, &gen.Extend{Cols: []*gen.Col{{Name: &id, X: &gen.Call{Func: "f", Args: []gen.Expr{gen.ID("a"), &gen.Num{Text: fmt.Sprint(i)}}}}}})
-				case 2:
-					q.Ops = append(q.Ops, &gen.Where{Pred: &gen.In{X: gen.ID("k"), Vals: []gen.Expr{&gen.Num{Text: "1"}, &gen.Num{Text: fmt.Sprint(i)}}}})
-				default:
-					q.Ops = append(q.Ops, &gen.Sort{Terms: []*gen.Term{{X: &gen.Index{X: gen.ID("m"), I: &gen.Str{Value: fmt.Sprintf("k%d", i)}}, Dir: "asc"}}})
-				}
-			}
-			prog.Stmts = []gen.Stmt{q}
-			class = "long-pipeline"
-		case 1:
-			// one expression with n terms side by side
-			op := rapid.SampledFrom([]string{"or", "and", "+"}).Draw(rt, "chainop")
-			var x gen.Expr
-			for i := 0; i < n; i++ {
-				var term gen.Expr
-				switch i % 3 {
-				case 0:
-					term = &gen.Call{Func: "startswith", Args: []gen.Expr{gen.ID("name"), &gen.Str{Value: fmt.Sprintf("p%d", i)}}}
-				case 1:
-					term = &gen.Paren{X: &gen.Binary{Op: "==", X: gen.ID("x"), Y: &gen.Num{Text: fmt.Sprint(i)}}}
-				default:
-					term = &gen.In{X: gen.ID("y"), Vals: []gen.Expr{&gen.Num{Text: fmt.Sprint(i)}}}
-					if op == "+" || op == "and" {
-						term = &gen.Paren{X: term}
-					}
-				}
-				if x == nil {
-					x = term
-				} else {
-					x = &gen.Binary{Op: op, X: x, Y: term}
-				}
-			}
-			prog.Stmts = []gen.Stmt{&gen.Tabular{Table: gen.Ident{Name: "T"}, Ops: []gen.Op{&gen.Where{Pred: x}}}}
-			class = "long-expression"
-		case 2:
-			// many statements: lets, then the query
-			for i := 0; i < n; i++ {
-				prog.Stmts = append(prog.Stmts, &gen.Let{Name: gen.Ident{Name: fmt.Sprintf("v%d", i)}, X: &gen.Paren{X: &gen.Num{Text: fmt.Sprint(i)}}})
-			}
-			prog.Stmts = append(prog.Stmts, g.Tabular(0))
-			class = "many-statements"
-		default:
-			// long lists: project / summarize / call arguments / in-list
-			p := &gen.Project{}
-			c := &gen.Call{Func: "f"}
-			in := &gen.In{X: gen.ID("k")}
-			for i := 0; i < n; i++ {
-				id := gen.Ident{Name: fmt.Sprintf("p%d", i)}
-				p.Cols = append(p.Cols, &gen.Col{Name: &id, X: &gen.Paren{X: gen.ID("a")}})
-				c.Args = append(c.Args, &gen.Index{X: gen.ID("m"), I: &gen.Num{Text: fmt.Sprint(i)}})
-				in.Vals = append(in.Vals, &gen.Paren{X: &gen.Num{Text: fmt.Sprint(i)}})
-			}
-			prog.Stmts = []gen.Stmt{&gen.Tabular{Table: gen.Ident{Name: "T"}, Ops: []gen.Op{p, &gen.Where{Pred: &gen.Binary{Op: "and", X: c, Y: in}}}}}
-			class = "long-lists"
-		}
+		g := gen.NewG(rt, gen.Cfg{MaxDepth: 1, MaxOps: 2, JoinDepth: 0, Compilable: true})
+		prog, class, n := genLargeProgram(rt, g)
 		pr := gen.Print(prog)
 		laid := gen.Layout(pr, nil)
 		c := progCase{Src: laid.Src, SrcQ: mkStrCase(laid.Src).SrcQ, Canon: gen.Canon(prog)}
